@@ -68,6 +68,14 @@ func runC03(e *core.Env) {
 				text += "\n" + longLineText(r, r.PickInt(65536, 70000))
 			}
 		}
+		if i == 23 && text != "" {
+			// one file per run between 8 and 9 MiB (a record with 135 summary lines of 65 000 characters behind the generated records)
+			if !strings.HasSuffix(text, "\n") {
+				text += "\n"
+			}
+			text += "\n0001-01-01\n" + strings.Repeat(strings.Repeat("x", 65000)+"\n", 135)
+			e.Count("files_between_8_and_9_MiB", 1)
+		}
 		file := e.Dir + "/c03.klg"
 		model := d.Doc
 		for k := 0; k < 3; k++ {
@@ -77,6 +85,9 @@ func runC03(e *core.Env) {
 			if cmd.Kind == "pause" && len(cmd.Ticks) >= 2 && core.Hash64("c03-foreign", fmt.Sprint(e.Seed, caseID))%2 == 0 {
 				// while the pause loop runs, somebody else (an editor, another klog) appends a record to the file
 				cmd.ForeignEdit = 1 + int(core.Hash64("c03-foreign-at", fmt.Sprint(e.Seed, caseID))%uint64(len(cmd.Ticks)))
+			}
+			if i == 23 && k == 0 {
+				cmd = MCmd{Kind: "track", Entry: []string{"1h into the big file"}, DateFlag: "today"} // a command that succeeds on any valid file
 			}
 			if err := os.WriteFile(file, []byte(text), 0644); err != nil {
 				panic(err)
